@@ -59,6 +59,12 @@ def monitor(case, obs):
                     st = ctx.get("stack")
                     if prev_stack is not None and st is not None and len(st) >= len(prev_stack) and not any(e[0][0] == "cb" and e[0][2] == "setup" for e in x.x[max(0, i - 3):i]):
                         return "closed() of %s fired but no entry was popped (stack %r -> %r)" % (name, prev_stack, st)
+        if ev[0] == "cb<" and ev[2] == "setup" and not ev[3]:
+            # a screen whose setup reports failure is the one that is discarded: the next observation shows the stack without its entry
+            nxt = next((c for e, c in x.x[i + 1:] if not c.get("reader") and "stack" in c), None)
+            st = ctx.get("stack")
+            if nxt is not None and st and len(nxt["stack"]) == len(st) - 1 and nxt["stack"] == st[:-1] and st[-1][0] != x.specs[ev[1]]["name"]:
+                return "setup() of %s reported failure but the entry discarded is %r (stack %r -> %r)" % (x.specs[ev[1]]["name"], st[-1], st, nxt["stack"])
         if ev[0] == "cb<" and ev[2] == "setup":
             # the setup callback returned: ev[3] is its result; the base method (which marks the screen ready) ran unless the script failed before it
             scr = ev[1]; k = counts.get(scr, 0)
@@ -67,6 +73,17 @@ def monitor(case, obs):
             ready[scr] = True if ev[3] else ready.get(scr, False) or any((sc[j].get("ret") == "fail_after") for j in range(min(k, len(sc))))
         if "stack" in ctx: prev_stack = ctx["stack"]
     return None
+
+
+def classify(case, obs, verdict, model):
+    if "but the entry discarded is" in verdict: return "K3"
+    return None
+
+
+def run_witness(wit):
+    case = with_cc(dict(op="machine", mode="app", width=80, handlers=[], stdin=[], deliver_at=[], **wit))
+    v = monitor(case, run_impl(case))
+    return v is not None and "but the entry discarded is" in v
 
 
 def nontrivial(case, obs):
